@@ -28,13 +28,13 @@ func runC01(env *lib.Env, rep *lib.Report) {
 	small := worldOpt{Leaf: 3, Internal: 3}
 	var cfgs []histCfg
 	for _, seed := range []string{"empty", "t1x8", "t1x8-upper-deleted", "interleaved", "t1x30", "catalog-split"} {
-		cfgs = append(cfgs, histCfg{Name: "real/" + seed, Opt: real, Seed: seed, Alpha: fullAlpha, Depth: d})
+		cfgs = append(cfgs, histCfg{Name: "real/" + seed, Opt: real, Seed: seed, Alpha: fullAlpha, Depth: d, FinalReopen: true})
 	}
 	for _, seed := range []string{"empty", "t1x8-upper-deleted", "interleaved"} {
-		cfgs = append(cfgs, histCfg{Name: "leaf3-int3/" + seed, Opt: small, Seed: seed, Alpha: fullAlpha, Depth: d})
+		cfgs = append(cfgs, histCfg{Name: "leaf3-int3/" + seed, Opt: small, Seed: seed, Alpha: fullAlpha, Depth: d, FinalReopen: true})
 	}
 	// deeper, with a two-table alphabet, from the empty database
-	cfgs = append(cfgs, histCfg{Name: "real/empty/deep", Opt: real, Seed: "empty", Alpha: twoAlpha, Depth: d + 1})
+	cfgs = append(cfgs, histCfg{Name: "real/empty/deep", Opt: real, Seed: "empty", Alpha: twoAlpha, Depth: d + 1, FinalReopen: true})
 	rep.Bounds["depth"] = d
 	rep.Bounds["configs"] = cfgNames(cfgs)
 	rep.Bounds["alphabet"] = "CREATE TABLE t1/t2/t3; per table INSERT 1/4/9 rows, INSERT one 380-byte row, INSERT two rows with NULLs in every other column, UPDATE lower half/all, DELETE upper half/last/all (only statements enabled in the current state)"
